@@ -50,6 +50,29 @@ func c05get(idx int) c05case {
 		return c05case{Kind: "custom", Req: resp.Cmd(args...), DB: db}
 	}
 	v := grammar.Generate(grammar.Specs[slot], r, tok)
+	if r.Chance(1, 25) && v.Class == grammar.Core && len(v.Expect) == 1 {
+		// one string argument that is not the last one grows to 64 KiB and beyond (arguments follow it on the wire)
+		for i := 1; i+1 < len(v.Argv); i++ {
+			old := string(v.Argv[i])
+			if v.Slots[i].Kind != grammar.KStr || v.Slots[i].Role == "optkw" || len(old) == 0 || strings.Count(v.Expect[0].Str, double.Q(old)) != 1 {
+				continue
+			}
+			same := 0
+			for _, a := range v.Argv {
+				if string(a) == old {
+					same++
+				}
+			}
+			if same != 1 {
+				continue // the argument occurs twice (a repeated key): changing one occurrence would change the meaning
+			}
+			big := old + string(r.From([]byte("abcdefgh"), rng.Pick(r, []int{65535, 65536, 70000, 131072})))
+			v.Argv[i] = []byte(big)
+			v.Expect[0].Str = strings.Replace(v.Expect[0].Str, double.Q(old), double.Q(big), 1)
+			v.Tags = append(v.Tags, "large-argument-followed-by-arguments")
+			break
+		}
+	}
 	return c05case{Kind: "vector", V: v, Req: v.Value(), DB: db}
 }
 
